@@ -102,6 +102,9 @@ func (s *ImmutableState) runtimesWithRoundTimeouts(ctx context.Context, height *
 			heights = append(heights, decHeight)
 		}
 	}
+	if it.Err() != nil {
+		return nil, nil, api.UnavailableStateError(it.Err())
+	}
 	return runtimeIDs, heights, nil
 }
 
@@ -335,6 +338,9 @@ func (s *ImmutableState) PastRoundRoots(ctx context.Context, runtimeID common.Na
 
 		ret[round] = roots
 	}
+	if it.Err() != nil {
+		return nil, api.UnavailableStateError(it.Err())
+	}
 
 	return ret, nil
 }
@@ -480,7 +486,11 @@ func (s *MutableState) ShrinkPastRoots(ctx context.Context, maxStoredRoots uint6
 
 			keysToRemove = append(keysToRemove, it.Key())
 		}
+		err = it.Err()
 		it.Close()
+		if err != nil {
+			return api.UnavailableStateError(err)
+		}
 
 		for _, key := range keysToRemove {
 			if err := s.ms.Remove(ctx, key); err != nil {
@@ -551,6 +561,9 @@ func (s *MutableState) RemoveExpiredEvidence(ctx context.Context, runtimeID comm
 			break
 		}
 		toDelete = append(toDelete, it.Key())
+	}
+	if it.Err() != nil {
+		return api.UnavailableStateError(it.Err())
 	}
 
 	for _, key := range toDelete {
